@@ -1248,3 +1248,101 @@ def r1c(cx):
                          'symbol such as [.é.] is dropped from a complemented bracket expression)' % pp.callee(t), loc=b.loc(t))
     cx.site('yash_fnmatch::ast: %d bodies scanned for byte lengths; matcher validated on %d Pattern::find/rfind sites' % (n, len(pos)))
     cx.floor(n, 20, 'pattern AST bodies')
+
+
+# ---------------------------------------------------------------------------------------
+# added after the audit of the unmodified tree (fix 51af144: `[![.ch.]]` became the invalid regex `[^]`)
+@RS.rule('C04.R6', 'K-PASS+K-GUARD', 'a bracket written to the regex is never empty (`[]` / `[^]` do not compile, and a pattern that does not '
+         'compile matches nothing): between the opening and the closing bracket at least one item is written on every feasible path')
+def r6(cx):
+    F = cx.F
+    fn = 'yash_fnmatch::ast::regex::<impl yash_fnmatch::ast::Bracket>::fmt_regex'
+    body = F.main_body(fn)
+    cx.fn(body.fn)
+    du = Q.DefUse(body)
+
+    def written(t):
+        """The literal a write_char / write_str call writes, or None."""
+        if not Q.callee_is(t, ['core::fmt::Write::write_char', 'core::fmt::Write::write_str']) or len(t['a']) < 2:
+            return None
+        o = t['a'][1]
+        if 'c' in o:
+            return str(o['c']).strip("'\"")
+        org = du.origin(o)
+        for _ in range(4):
+            if org['k'] == 'ref':
+                d = du.single_def(org['pl']['l'])
+                if d and d[1] != 't' and d[2]['rv']['k'] == 'use' and 'c' in d[2]['rv']['o']:
+                    return str(d[2]['rv']['o']['c']).strip("'\"")
+                org = du.origin_place(org['pl'])
+            elif org['k'] == 'const':
+                return str(org['o'].get('c')).strip("'\"")
+            else:
+                break
+        return None
+
+    opens, closes = [], []
+    for blk, t in body.calls():
+        w = written(t)
+        if w is None:
+            continue
+        if w in ('[', '[^'):
+            opens.append((blk, t, w))
+        elif w == ']':
+            closes.append((blk, t))
+    cx.require(len(opens) >= 2 and closes, 'the writes of `[` / `[^` and `]` were not found in Bracket::fmt_regex (%d/%d)' % (len(opens), len(closes)))
+    ITEM = [re.compile(r'yash_fnmatch::ast::regex::<impl yash_fnmatch::ast::Bracket(Item|Atom)>::fmt_regex(_single|_char)?$')]
+    item_writes = {blk for blk, t in Q.find_calls(body, ITEM)}
+    cx.require(item_writes, 'no item is written in Bracket::fmt_regex (anchor moved)')
+    nexts = {blk for blk, t in Q.find_calls(body, [re.compile(r'Iterator>::next$')])}
+    close_blocks = {b for b, t in closes}
+    for blk, t, w in opens:
+        p = body.shortest_path(body.succ(blk)[0], close_blocks, removed=item_writes)
+        conds = Q.implied_conditions(F, body, du, blk)
+        nonempty = any(Q.cond_is_call(org, [re.compile(r'Vec::<T, A>::is_empty$'), re.compile(r'<impl \[T\]>::is_empty$')]) and lab == ('bool', False)
+                       for org, lab, e in conds)
+        some_single = False
+        for org, lab, e in conds:
+            if org['k'] != 'call':
+                continue
+            c = pp.callee(org['t'])
+            pred = ' '.join(str(a.get('fn') or a.get('c') or '') for a in org['t']['a'][1:] if isinstance(a, dict))
+            if c.endswith('Iterator>::all') and 'matches_multi_character' in pred and lab == ('bool', False):
+                some_single = True          # not all items are multi-character: a single-character item exists
+            if c.endswith('Iterator>::any') and lab == ('bool', True) and 'matches_multi_character' not in pred:
+                some_single = True          # any(|i| !i.matches_multi_character()) - closure form
+        if p is None:
+            cx.site('Bracket::fmt_regex: `%s` at %s: an item is written on every path to the closing bracket' % (w, body.loc(t)))
+            continue
+        # a path that goes through a loop body (the Some edge of Iterator::next) without writing the item skips items by a test
+        via_body = None
+        for n in nexts:
+            sw = body.succ(n)[0]
+            ec = Q.edge_condition(F, body, du, sw) if body.term(sw)['k'] == 'switch' else None
+            if not ec:
+                continue
+            for tgt, labs in ec[1].items():
+                if ('variant', 'Some') not in labs:
+                    continue
+                p1 = body.shortest_path(body.succ(blk)[0], {tgt}, removed=item_writes)
+                p2 = body.shortest_path(tgt, close_blocks, removed=item_writes)
+                if p1 is not None and p2 is not None:
+                    via_body = p1 + p2[1:]
+        if via_body:
+            p = via_body
+        if via_body:
+            ok = some_single
+            why = 'items are skipped by a per-item test; a whole-list test that one item is written dominates the opening: %s' % some_single
+        else:
+            ok = nonempty or some_single
+            why = 'only the zero-iteration path writes nothing; the list is known to be non-empty: %s' % (nonempty or some_single)
+        cx.site('Bracket::fmt_regex: `%s` at %s: %s' % (w, body.loc(t), why))
+        if not ok:
+            cx.violation(fn, 'empty-bracket:%s' % ('complement' if '^' in w else 'plain'), 'a path writes `%s` and then `]` with nothing in '
+                         'between (%s): e.g. a complemented bracket expression made only of multi-character collating symbols, `[![.ch.]]`, '
+                         'becomes the regex `[^]`, which does not compile - the whole pattern then matches nothing although POSIX says it '
+                         'matches any single character' % (w, 'every item can be skipped' if via_body else 'empty item list'),
+                         loc=body.loc(t), path=Q.render_path(body, p))
+
+
+RS.explanation += ' Added after the audit: a bracket written to the regex is never empty (R6).'
